@@ -3,4 +3,5 @@ let () =
   | [| _; "fmt" |] -> Run_fmt.run ()
   | [| _; "buf" |] -> Run_buf.run ()
   | [| _; "cmp" |] -> Run_cmp.run ()
+  | [| _; "bufmut" |] -> Run_bufmut.run ()
   | _ -> prerr_endline "usage: modelrun <engine>"; exit 2
